@@ -38,6 +38,9 @@ def run(ctx):
     ctx.rule('C04.g-size-steers-nothing', 'above the shard store the shard size is only validated, stored, compared with a given shard and turned into a block count: no branch with two successful continuations depends on it (which code is used for a symbol slot cannot depend on how many slots a shard has)')
     ctx.rule('C04.f-lane-pairing', 'scalar kernels index blocks only with the loop variable or loop variable + 32')
     ctx.rule('C04.h-kernels-lane-wise', 'the SIMD kernels are straight-line lane-wise code (no decision taken on the content of a whole block) and equal to their siblings: what happens to a symbol slot cannot depend on the other slots of its block (clause shared with C03.e)')
+    ctx.rule('C04.i-padding-fully-zeroed', 'the rows a truncated transform treats as empty are zeroed as whole rows by the store (Shards zero over a range of rows), including the displaced high half of a short final block (clause shared with C05.c)')
+    from . import c05 as c05_
+    ctx.guard('C04.analysable', ctx.shared, {'C05.c-truncated-ifft-zeroed': 'C04.i-padding-fully-zeroed'}, c05_.ifft_rule, ctx, ctx.facts('x86_64'), 'x86_64')
     from . import c03
     ctx.guard('C04.analysable', ctx.shared, {'C03.e-kernel-siblings': 'C04.h-kernels-lane-wise'}, c03.kernel_siblings, ctx, {c: ctx.facts(c) for c in ('x86_64', 'aarch64')})
     for cfg in cfgs:
